@@ -227,7 +227,14 @@ func (lc *lifeClient) runLifeConn(idx int, term, place, peer string, r *RNG) *li
 			pmu.Lock()
 			o.SentBeforeErr = append(o.SentBeforeErr, "ERROR :Closing Link: "+tag)
 			pmu.Unlock()
-			send("ERROR :Closing Link: " + tag)
+			if r.Bool() {
+				// more lines follow the ERROR in the same segment (never handled: execLoop stops at the ERROR); a
+				// later connection of this client must not see them
+				srv.SetWriteDeadline(time.Now().Add(2 * time.Second))
+				srv.Write([]byte("ERROR :Closing Link: " + tag + "\r\n:me!u@h JOIN #stale" + tag + "\r\n:x!u@h PRIVMSG me :" + tag + " after the error\r\n:x!u@h NOTICE me :" + tag + " after the error\r\n"))
+			} else {
+				send("ERROR :Closing Link: " + tag)
+			}
 			if r.Bool() {
 				time.Sleep(time.Duration(r.Intn(3)) * time.Millisecond)
 			}
@@ -408,7 +415,9 @@ func judgeLife(c *Ctx, hin map[string]string, o *lifeObs, prev *lifeObs) {
 			if o.Ret != "errevent:Closing Link: "+tag {
 				viol("error_not_errevent", "handlers saw the server's ERROR, so Connect must return an ErrEvent carrying its text")
 			}
-			if strings.Join(got, "\n") != strings.Join(want, "\n") {
+			// (when the cancellation wins the race, the flush path also hands the lines that FOLLOWED the ERROR to the
+			// handlers; the property speaks about what came before it)
+			if len(got) < len(want) || strings.Join(got[:len(want)], "\n") != strings.Join(want, "\n") {
 				viol("events_before_error", fmt.Sprintf("delivered %d events, the server had sent %d up to and including ERROR; first difference at %d", len(got), len(want), firstDiffIdx(got, want)))
 			}
 		} else {
